@@ -33,7 +33,6 @@ import (
 	"testing/synctest"
 	"time"
 
-	"github.com/nspcc-dev/neofs-node/pkg/local_object_storage/blobstor/common"
 	"github.com/nspcc-dev/neofs-node/pkg/local_object_storage/blobstor/fstree"
 	"github.com/nspcc-dev/neofs-node/pkg/local_object_storage/shard/mode"
 	"github.com/nspcc-dev/neofs-node/pkg/local_object_storage/writecache"
@@ -257,7 +256,7 @@ func (e *env) newCache() {
 	if err := e.wc.Open(false); err != nil {
 		e.fatalf("cache Open: %v", err)
 	}
-	if err := e.wc.Init(common.ID{1}); err != nil {
+	if err := e.wc.Init(e.main.ShardID()); err != nil {
 		e.fatalf("cache Init: %v", err)
 	}
 	e.ro = false
@@ -300,7 +299,7 @@ func listCache(root string) (map[string]int64, error) {
 				continue
 			}
 			name := d.Name() + f.Name()
-			c, o, ok := strings.Cut(name, ".")
+			o, c, ok := strings.Cut(name, ".") // FSTree file name: <object id>.<container id>
 			if !ok {
 				continue
 			}
